@@ -286,3 +286,44 @@ def empty_edges(body, field):
                 if (a_len and b_zero and op in ("Eq", "Le")) or (b_len and a_zero and op in ("Eq", "Ge")):
                     out.append((bi, tgt))
     return out
+
+
+def owner_of(F, body, limit=4, stop_at=()):
+    """the function a private helper belongs to: climbs while the body is not `pub`, is not a trait-impl method and every
+    call site of it lies in one single other function.  Rules that key their verdicts by function use the owner, so that
+    moving code into a helper does not rename a verdict (or a known finding)."""
+    b = body
+    for _ in range(limit):
+        if b.path in stop_at or b.rec.get("pub") or b.trait or "{closure" in b.path:
+            return b
+        callers = set()
+        for cb, bi, t in F.call_sites(b.path):
+            callers.add(cb.root if "{closure" in cb.path else cb.path)
+        callers.discard(b.path)
+        if len(callers) != 1:
+            return b
+        b = F.body(next(iter(callers)))
+    return b
+
+
+def state_gates(body, site_bb, fields):
+    """Switches (boolean or on an enum discriminant) that consult a struct field named in `fields` and separate
+    `site_bb` from at least one of their outcomes: returns the edges through which the site stays reachable.
+    Polarity- and representation-agnostic (`bool` flag, two-variant enum, Option): what matters is that the state is
+    consulted and that one of its outcomes excludes the site."""
+    out = []
+    sc = body.succ()
+    for sb in sorted(body.reachable()):
+        t = body.blocks[sb]["t"]
+        if t["k"] != "switch" or len(sc[sb]) < 2:
+            continue
+        l = op_local(t["op"])
+        if l is None:
+            continue
+        sl = body.slice_back([l])
+        if not any(f in fields for _, f in sl["fields"]):
+            continue
+        can = [y for y in sc[sb] if site_bb in body.reach_from([y], removed=[sb])]
+        if can and len(can) < len(sc[sb]):
+            out += [(sb, y) for y in can]
+    return out
